@@ -96,6 +96,8 @@ class Output(BaseOutput):
 
         # One record for every output step in range(Nsteps), the last period may be partial
         self.num_records = int(-(-timer.Nsteps // self.output_period_step))
+        if skip_initial:  # The initial record is not written
+            self.num_records -= 1
         # if not skip_initial:  # Add an initial record
         #     self.num_records += 1
         logger.info("  Number of records: %s", self.num_records)
@@ -223,7 +225,6 @@ class Output(BaseOutput):
         """
 
         # May skip initial output
-        self.skip_initial = False
         if self.skip_initial:
             self.skip_initial = False
             return
